@@ -103,6 +103,8 @@ def gen_case(rng, i, tier):
     root = max(ints)
     edge = _num(rng, grid, 0.1, 3.0)
     root_edge = scenario == "root-edge" or rng.random() < 0.15
+    if scenario == "relative":
+        root_edge = rng.random() < 0.5       # relative epoch times WITH the origin given as the length of the root edge
     origin = root + edge
     T = origin
     m = 1 if rng.random() < 0.15 else rng.randint(1, 8)
